@@ -24,6 +24,7 @@ pub fn run(kind: &str, c: &Case, outdir: &Path, out: &mut String) {
         "mergeinto" => mergeinto(c, out),
         "fill" => fill(c, out),
         "wigops" | "bedops" => ops(c, outdir, out),
+        "compat" => compat(c, out),
         _ => {
             writeln!(out, "R unknown-kind").unwrap();
         }
@@ -545,4 +546,20 @@ fn ops(c: &Case, outdir: &Path, out: &mut String) {
         fl.push(v);
     }
     writeln!(out, "{}", fl).unwrap();
+}
+
+// ---------------------------------------------------------------------------------------------
+// C16: UCSC-style argument rewriting (`compat_args`)
+
+fn compat(c: &Case, out: &mut String) {
+    let args: Vec<std::ffi::OsString> = c
+        .records("ARG")
+        .map(|l| std::ffi::OsString::from(String::from_utf8(unhex(&l[1])).unwrap()))
+        .collect();
+    let res: Vec<std::ffi::OsString> = bigtools::utils::cli::compat_args(args.into_iter()).collect();
+    let mut line = "ARGS".to_string();
+    for a in res {
+        write!(line, " {}", hex(a.to_string_lossy().as_bytes())).unwrap();
+    }
+    writeln!(out, "{}", line).unwrap();
 }
